@@ -108,6 +108,42 @@ func (p *Prod) nullable(seen map[*Prod]bool) bool {
 
 func (n *Node) Nullable() bool { return n.nullable(map[*Prod]bool{}) }
 
+// matchesAtEOFWithoutConsuming: like Nullable, but an explicit EOF reference counts as matching nothing.
+func (n *Node) matchesAtEOFWithoutConsuming() bool {
+	switch n.K {
+	case KRef:
+		return n.Typ == "EOF"
+	case KLit, KNeg:
+		return false
+	case KSeq:
+		for _, k := range n.Kids {
+			if !k.matchesAtEOFWithoutConsuming() {
+				return false
+			}
+		}
+		return true
+	case KAlt:
+		for _, k := range n.Kids {
+			if k.matchesAtEOFWithoutConsuming() {
+				return true
+			}
+		}
+		return false
+	case KGroup:
+		if n.Mode == '?' || n.Mode == '*' {
+			return true
+		}
+		return n.X.matchesAtEOFWithoutConsuming()
+	case KLook:
+		return true
+	case KCapture:
+		return n.X.matchesAtEOFWithoutConsuming()
+	case KSub:
+		return n.Prod.nullable(map[*Prod]bool{})
+	}
+	return false
+}
+
 func (n *Node) nullable(seen map[*Prod]bool) bool {
 	switch n.K {
 	case KLit, KRef, KNeg:
@@ -220,6 +256,9 @@ func (p *Prod) OutOfDomain() string {
 			case KGroup:
 				if (n.Mode == '*' || n.Mode == '+') && n.X.Nullable() {
 					set("nullable repetition body")
+				}
+				if (n.Mode == '*' || n.Mode == '+') && n.X.matchesAtEOFWithoutConsuming() {
+					set("repetition body that matches at EOF without consuming")
 				}
 				if n.Mode == '!' && n.X.contains(func(m *Node) bool {
 					return (m.K == KCapture && m.X.Nullable()) || (m.K == KSub && m.Prod.nullable(map[*Prod]bool{}))
